@@ -11,6 +11,8 @@ pub mod c08;
 pub mod c25;
 pub mod c30;
 pub mod ops;
+pub mod serde1;
+pub mod serde2;
 
 pub fn dispatch(ctx: &mut Ctx) {
     match ctx.prop.as_str() {
@@ -24,6 +26,17 @@ pub fn dispatch(ctx: &mut Ctx) {
         "C12" => alloc::run_c12(ctx),
         "C13" => alloc::run_c13(ctx),
         "C14" => alloc::run_c14(ctx),
+        "C15" => serde1::run_c15(ctx),
+        "C16" => serde1::run_c16(ctx),
+        "C17" => serde1::run_c17(ctx),
+        "C18" => serde1::run_c18(ctx),
+        "C29" => serde1::run_c29(ctx),
+        "C19" => serde2::run_c19(ctx),
+        "C20" => serde2::run_c20(ctx),
+        "C21" => serde2::run_c21(ctx),
+        "C22" => serde2::run_c22(ctx),
+        "C23" => serde2::run_c23(ctx),
+        "C24" => serde2::run_c24(ctx),
         "C25" => c25::run(ctx),
         "C30" => c30::run(ctx),
         "C31" => c08::run_c31(ctx),
